@@ -282,7 +282,7 @@ def lexComment : M (Option StateId) := do
 def lexRightDelim : M (Option StateId) := do
   let s ← get
   let rest ← restAt s.pos
-  let trimSpace := hasPrefix rest rightTrimMarker
+  let trimSpace := hasPrefix rest s.d.trimRight
   if trimSpace then
     modify fun s => { s with pos := s.pos + 2 }
     ignore IgnKind.markRight
